@@ -27,7 +27,7 @@ from irispie.fords import covariances as COV
 from .common import Ctx, rat_of_float, VERIF
 
 DRIVERS = ["C15"]
-EXTRA_PROPS = ['BridgeC15']   # refinement bridge from the executable QMat model to the matrix-level theorems (audited with this check)
+EXTRA_PROPS = ['BridgeC15', 'QMatSolveBridge', 'GenTieCore', 'GenTieC15']   # refinement bridge from the executable QMat model to the matrix-level theorems (audited with this check)
 LEVEL = "proof"
 MANIFEST = {
     "category": "proof",
@@ -39,7 +39,7 @@ MANIFEST = {
              "solution is unique when that matrix is non-singular and, for real matrices, under a contraction hypothesis (some power of T has operator "
              "norm product < 1); scaling every std by s scales every Gamma_j by s^2; the autocorrelation has unit diagonal, squares to "
              "gamma^2/(d_i d_j) and is 0 under the zero-variance guard; in the executable model a cell is NaN exactly when its row or its column variable "
-             "loads on a unit-root column. The executable model is tied to irispie on every run: exact NaN-pattern comparison and tolerance comparison "
+             "loads on a unit-root column; the rows reported are exactly the zero-shift tokens of the joint vector in vector order; a solved variant is a state machine under rescale_stds(f, kind) call histories (kinds with an empty selection included): the solution matrices are never touched and every std^2 in force is the original times the squared cumulative factor of its own kind, so get_acov is a function of (solution, stds in force) only. The executable model is tied to irispie on every run: exact NaN-pattern comparison and tolerance comparison "
              "of get_acov/get_acorr/rescale_stds against the exact rational Lyapunov solution computed from the implementation's own solution matrices, "
              "plus the exact fixed-point residual of the implementation's cov_triangular_00 (certificate validation per generated model)."),
     "design": "7/C15",
@@ -259,7 +259,8 @@ def run_impl(case):
         vec = m._get_dynamic_solution_vectors()
         cov_u = m.getv_cov_u(variant); cov_w = m.getv_cov_w(variant)
         zero_shift = [t.shift == 0 for t in vec.transition_variables] + [t.shift == 0 for t in vec.measurement_variables]
-        out.append({"sol": sol, "cov_u": np.array(cov_u), "cov_w": np.array(cov_w), "zero_shift": zero_shift,
+        shifts = [int(t.shift) for t in vec.transition_variables] + [int(t.shift) for t in vec.measurement_variables]
+        out.append({"shifts": shifts, "sol": sol, "cov_u": np.array(cov_u), "cov_w": np.array(cov_w), "zero_shift": zero_shift,
                     "acov": [np.array(a) for a in acov[vid]], "acorr": [np.array(a) for a in acorr[vid]],
                     "acorr_from": [np.array(a) for a in acorr_from[vid]],
                     "acov_scaled": [np.array(a) for a in acov_scaled[vid]],
@@ -290,16 +291,20 @@ def rats(a):
     return [rat_of_float(x) for x in np.asarray(a, dtype=float).flatten()]
 
 
-def acov_line(case, r, factor=1.0, factors=None):
+def acov_line(case, r, factor=1.0, factors=None, seq=None):
     sol = r["sol"]
     na, ny, nu = sol.num_alpha, sol.num_y, sol.num_unit_roots
     ne, nw = r["cov_u"].shape[0], r["cov_w"].shape[0]
     sel = [i for i, z in enumerate(r["zero_shift"]) if z]
     ftext = rat_of_float(factor) if factors is None else rat_of_float(factors[0]) + "," + rat_of_float(factors[1])
+    if seq is not None:
+        # the call history itself, replayed call by call on the model's state (kinds: t, m, a = all = both kinds)
+        ftext = "seq:" + ";".join({"transition": "t", "measurement": "m", "all": "a", "any": "a"}[kd] + "*" + rat_of_float(f) for kd, f in seq)
     ws = ["acov", na, ny, nu, ne, nw, case["order"], "1/1000000000000", ftext]
     ws += rats(sol.Ta) + rats(sol.Pa) + rats(np.asarray(sol.Za).reshape(ny, na)) + rats(sol.Ua) + rats(np.asarray(sol.H).reshape(ny, nw))
     ws += rats(np.diag(r["cov_u"])) + rats(np.diag(r["cov_w"]))
-    ws += [len(sel)] + sel
+    # the time shifts of the joint token vector: the model selects the current-dated rows itself
+    ws += ["shifts", len(r["shifts"])] + r["shifts"]
     return " ".join(str(w) for w in ws)
 
 
@@ -570,7 +575,7 @@ def do_cases(ctx: Ctx, cases, with_model=True):
             if with_model and sol.num_alpha - sol.num_unit_roots <= MAX_STABLE:
                 slots.append((ci, vid, len(lines)))
                 lines += [acov_line(case, r), acov_line(case, r, case["factor"]), cert_line(r),
-                          acov_line(case, r, factors=cumulative_factors(case)) if case.get("rescale_seq") else "noop"]
+                          acov_line(case, r, seq=case["rescale_seq"]) if case.get("rescale_seq") else "noop"]
             elif with_model:
                 ctx.count("model:too-large-not-compared")
         if ci < 2:
